@@ -1,6 +1,6 @@
 from lib import flow, vlib
 
-NS = 44  # slots of the PlanSim walk (42 catalog slots + the clock) + 1
+NS = 46  # slots of the PlanLarge walk (42 catalog slots + the two size slots + the clock) + 1; PlanSim has two less
 
 
 def _has_entry(t):
@@ -20,7 +20,32 @@ def _skew_not_realised(t):
             return True
         if sk == "behind" and e.get("rel") != "notahead":
             return True
+        if _fill_not_realised(e):
+            return True
     return False
+
+
+def _fill_not_realised(e):
+    """machinery guard: a plan with a filler block (catalog size class 'large') must have been run with all n filler keys
+    in the store, contiguous in the store's key order, and with exactly the interesting records behind the block that the
+    model placed behind it (record slot ordinal > gap) - store keys are strings, the ids are chosen by the model"""
+    cat = e.get("cat") or {}
+    fill, obs = cat.get("fill"), e.get("fillobs")
+    if not fill:
+        return False
+    if not obs:
+        return True
+    for kind, recs in (("c", cat.get("colls", [])), ("p", cat.get("parts", []))):
+        f, o = fill[kind], obs.get(kind) or {}
+        if not f.get("on"):
+            if o.get("fillers"):
+                return True
+            continue
+        want = sorted(r["id"] for r in recs if r["ord"] > f["gap"])
+        if o.get("fillers") != f["n"] or not o.get("contiguous") or sorted(o.get("behind", [])) != want:
+            return True
+    return False
+
 
 
 C = dict(
@@ -31,6 +56,10 @@ C = dict(
         dict(module="DroppedSnapshot", cfg="DroppedSnapshot_MCclash.cfg", workers=8),
         dict(module="DroppedSnapshot", cfg="DroppedSnapshot_MCskew.cfg", tiers=["thorough"], workers=8),
         dict(module="DroppedSnapshot", cfg="DroppedSnapshot_MC.cfg", tiers=["thorough"], workers=8),
+        dict(module="DroppedSnapshot", cfg="DroppedSnapshot_MClargeq.cfg", tiers=["thorough"], workers=8),
+        dict(module="DroppedSnapshot", cfg="DroppedSnapshot_MClarge.cfg", tiers=["thorough"], workers=8),
+        # the control ListTruncated restricted to catalogs that fit into one page: must NOT violate
+        dict(module="DroppedSnapshot", cfg="DroppedSnapshot_ListTruncatedSmall.cfg", tiers=["thorough"], workers=4),
     ],
     plan_sources=[
         dict(name="small", module="DroppedSnapshot", cfg="DroppedSnapshot_PlanSmall.cfg", workers=4,
@@ -41,16 +70,30 @@ C = dict(
              simulate={"quick": 120, "thorough": 3000}, depth=NS + 2, cap={"quick": 150, "thorough": 3000}),
         dict(name="simclash", module="DroppedSnapshot", cfg="DroppedSnapshot_PlanSimClash.cfg",
              simulate={"quick": 60, "thorough": 1000}, depth=NS + 2, cap={"quick": 60, "thorough": 1000}),
+        # catalog size as an input: a block of 1500 filler records in some gap of the key order of either record prefix
+        dict(name="large", module="DroppedSnapshot", cfg="DroppedSnapshot_PlanLarge.cfg",
+             simulate={"quick": 40, "thorough": 400}, depth=NS + 2, cap={"quick": 45, "thorough": 1500}),
+        dict(name="largeex", module="DroppedSnapshot", cfg="DroppedSnapshot_PlanLargeEx.cfg", workers=4, tiers=["thorough"],
+             cap={"thorough": 1500}),
+        dict(name="largeclash", module="DroppedSnapshot", cfg="DroppedSnapshot_PlanLargeClash.cfg", tiers=["thorough"],
+             simulate={"thorough": 100}, depth=NS + 2, cap={"thorough": 400}),
     ],
     directed="plans/C15.jsonl",
     trace=("DroppedSnapshot_Trace", "DroppedSnapshot_Trace.cfg"),
     death="violation",
+    driver_parallel=3,      # three driver processes, each with its own embedded etcd
+    # large catalogs first: the flow locates the rejecting event for the first rejected traces only, and the traces explained
+    # by the known findings of this property would otherwise use that budget up
+    expand_plans=lambda plans, tier: sorted(plans, key=lambda p: 0 if str(p.get("src", "")).startswith("large") else 1),
     nontrivial=_has_entry,
     bad_trace=_skew_not_realised,
     rule="one plan = one source catalog (databases live / tombstoned with or without a downstream copy, collection and "
          "partition incarnations in every state, repeated names; the source's current time = TSO key 10 min behind, equal to, "
          "3 s / 10 min / 23 days AHEAD of the wall clock of the host that takes the snapshot); each is written to an embedded etcd and the real "
-         "GetAllDroppedObj is called with a fake Milvus target and with a nil target; a trace is non-trivial if the "
+         "GetAllDroppedObj is called with a fake Milvus target and with a nil target; catalog size is an input: sources 'large*' add, "
+         "for the collection-record prefix and for the partition-record prefix of the store independently, a block of 1500 live filler records "
+         "(names outside the universe) into any gap of the key order of the interesting records (before all, between two, behind all; ids chosen "
+         "for the store's STRING order, realisation checked by reading the keys back); a trace is non-trivial if the "
          "table has at least one entry a name of the universe resolves to; distinct = distinct event sequences",
     assumptions=[
         "source catalog = embedded etcd v3.5.5 filled by harness/catalog in the source's key/value formats (trusted transcription)",
@@ -65,6 +108,9 @@ C = dict(
         "places the catalog's time base relative to time.Now() so that the key really is behind / ahead of the wall clock); "
         "'just below the current time' is read as: within the last millisecond before the TSO time; "
         "a partition record still 'created' below a dropped collection incarnation may or may not count as dropped",
+        "filler records are bare: live collections without partition records, live partitions of one container collection (their own "
+        "default partitions would be a second filler block under the partition prefix; the two blocks are chosen independently); "
+        "one block per record prefix, 1500 records (the control ListTruncated cuts a listing after 1000 keys)",
         "TLC exhaustiveness holds for the constants in the cfg files only; the large configuration is sampled with tlc -simulate",
     ],
 )
@@ -72,10 +118,30 @@ C = dict(
 
 def run(tier, replay=None):
     if not replay:
-        r = vlib.run_tlc("DroppedSnapshot", "DroppedSnapshot_ClampLocal.cfg", workers=4, timeout=300)
-        if not ({"ContractMilvus", "ContractKafka"} & set(r.violated)):
-            raise vlib.Inconclusive("DroppedSnapshot_ClampLocal.cfg no longer violates the contract: the position of the "
-                                    "source's time relative to the local clock is a vacuous input")
-        vlib.log("[tlc] DroppedSnapshot/DroppedSnapshot_ClampLocal.cfg: violates %s as expected "
-                 "(source time clamped to the local clock)" % sorted(set(r.violated)))
+        # negative controls (must violate the contract); the two TLC runs are independent: side by side
+        controls = [
+            ("DroppedSnapshot_ClampLocal.cfg", "source time clamped to the local clock",
+             "the position of the source's time relative to the local clock is a vacuous input"),
+            ("DroppedSnapshot_ListTruncated.cfg", "record listings cut after the first page of 1000 keys",
+             "the size of the catalog is a vacuous input"),
+        ]
+        # the exhaustive design => contract runs of the tier are independent TLC processes as well: all of them run side by
+        # side here (most of a run is JVM start-up), the flow gets their numbers through extra_coverage
+        mcs = [mc for mc in C["model_checks"] if not mc.get("tiers") or tier in mc["tiers"]]
+        import concurrent.futures as cf
+        with cf.ThreadPoolExecutor(max_workers=len(controls) + len(mcs)) as ex:
+            cfuts = [ex.submit(vlib.run_tlc, "DroppedSnapshot", c[0], workers=2, timeout=300, tag="ctl-" + c[0][:-4])
+                     for c in controls]
+            mfuts = [ex.submit(vlib.model_check, mc["module"], mc["cfg"], workers=4, timeout=mc.get("timeout", 1200),
+                               tag="mc-" + mc["cfg"][:-4]) for mc in mcs]
+            cres = [f.result() for f in cfuts]
+            mres = [f.result() for f in mfuts]          # a failing model check raises Inconclusive (exit 2)
+        for (cfg, what, vac), r in zip(controls, cres):
+            if not ({"ContractMilvus", "ContractKafka"} & set(r.violated)):
+                raise vlib.Inconclusive("%s no longer violates the contract: %s" % (cfg, vac))
+            vlib.log("[tlc] DroppedSnapshot/%s: violates %s as expected (%s)" % (cfg, sorted(set(r.violated)), what))
+        cov = {"states": sum(r.distinct for r in mres), "transitions": sum(r.generated for r in mres),
+               "model_checks": [{"module": mc["module"], "cfg": mc["cfg"], "distinct": r.distinct, "generated": r.generated,
+                                 "wall_s": round(r.wall, 1)} for mc, r in zip(mcs, mres)]}
+        return flow.standard_flow(dict(C, model_checks=[], extra_coverage=cov), tier, replay)
     return flow.standard_flow(C, tier, replay)
